@@ -453,7 +453,28 @@ func (g *pgen) function(name string, kind int, depth, budget int) *Func {
 		// two recurring shapes of cooperating generators, on top of the random body: a RELAY that is suspended inside a
 		// for-of over another generator (not inside any try statement), and a FINALIZER whose finally block drives a
 		// generator (so that it runs re-entrantly while some other generator's return()/throw() closes it)
-		switch g.t.Draw(7) {
+		switch g.t.Draw(8) {
+		case 7:
+			// a finally block that itself suspends (also inside a try/catch of its own), after a delegation in the try
+			// block: return() / throw() then arrive while the generator is suspended INSIDE the finally block that is
+			// running because of an earlier return(), and the delegate of the try block has been abandoned
+			g.use("yielding-finally-after-delegation")
+			e := g.newVar("e")
+			f.Body = append(f.Body, &STry{
+				Body: []Stmt{
+					&SAssign{Var: g.scratch[0], E: &EYield{E: &ENum{N: 1}}},
+					&SAssign{Var: g.scratch[0], E: &EYieldStar{Iter: g.iterable(1)}},
+				},
+				HasFinally: true,
+				Finally: []Stmt{
+					&STry{
+						Body:     []Stmt{&SAssign{Var: g.scratch[1], E: &EYield{E: &ENum{N: 2}}}, g.exitPoint()},
+						HasCatch: true, CatchVar: e, CatchSite: g.ns(),
+						Catch: []Stmt{&SAssign{Var: g.scratch[2], E: &EYield{E: &ENum{N: 3}}}},
+					},
+					&SAssign{Var: g.scratch[1], E: &EYield{E: &ENum{N: 4}}},
+				},
+			})
 		case 6:
 			// a delegation that fails in GetIterator (or in the delegate's first step), caught by the generator itself,
 			// which then drives a generator (possibly itself: it is still running) before it yields again
@@ -573,7 +594,24 @@ func genProgram(t *core.Track, mode string) (*Program, map[string]int) {
 				HasCatch: true, CatchVar: "ep", CatchSite: g.ns()})
 		}
 	}
+	// a scripted sequence of driver operations on one generator object at the start of main (on top of the random driver
+	// operations inside the bodies): histories like next, return, throw, next need several operations in a row
+	var seqDrive []Stmt
+	if len(g.gvars) > 0 && t.Draw(2) == 0 {
+		g.use("driver-sequence")
+		gv := g.gvars[t.Draw(len(g.gvars))]
+		for i, n := 0, 2+t.Draw(4); i < n; i++ {
+			seqDrive = append(seqDrive, &STry{Body: []Stmt{&SExpr{E: &EDrive{Site: g.ns(), Gen: gv, Op: t.Draw(3), Arg: &ENum{N: 20 + i}}}},
+				HasCatch: true, CatchVar: "ep", CatchSite: g.ns()})
+		}
+	}
 	main := g.function("main", fPlain, depth, 40)
+	if len(seqDrive) > 0 {
+		if len(pairDrive) == 0 {
+			main.Locals = append(main.Locals, "ep")
+		}
+		main.Body = append(seqDrive, main.Body...)
+	}
 	if len(pairDrive) > 0 {
 		main.Locals = append(main.Locals, "ep")
 		main.Body = append(pairDrive, main.Body...)
